@@ -132,7 +132,25 @@ fn read_ws_frame<R: Read>(r: &mut R) -> std::io::Result<(Vec<u8>, bool)> {
 /// Accept one connection, relay it to `upstream`, and after `quota` server-to-
 /// client messages have been forwarded close the upstream connection and the
 /// client-facing write side; what the client still sends is read and dropped.
-fn spawn_proxy(upstream: SocketAddr, ws: bool, quota: usize) -> std::io::Result<SocketAddr> {
+/// set by the truncating proxy when it actually shortened a chunk
+static DID_TRUNC: std::sync::atomic::AtomicBool = std::sync::atomic::AtomicBool::new(false);
+
+/// a REPE frame with the second half of its body removed (lengths patched)
+fn truncate_body(frame: &[u8]) -> Vec<u8> {
+    let ql = u64::from_le_bytes(frame[24..32].try_into().unwrap()) as usize;
+    let bl = u64::from_le_bytes(frame[32..40].try_into().unwrap()) as usize;
+    let keep = bl / 2;
+    let mut out = frame[..48 + ql + keep].to_vec();
+    out[0..8].copy_from_slice(&((48 + ql + keep) as u64).to_le_bytes());
+    out[32..40].copy_from_slice(&(keep as u64).to_le_bytes());
+    out
+}
+
+/// `trunc` (plain TCP only): nothing is cut; the last chunk response that carries bytes loses the
+/// second half of its body, the end-of-stream flag arrives as usual (a compressed stream that
+/// is cleanly terminated at the protocol level but whose compressed frame is incomplete)
+fn spawn_proxy(upstream: SocketAddr, ws: bool, quota: usize) -> std::io::Result<SocketAddr> { spawn_proxy2(upstream, ws, quota, false) }
+fn spawn_proxy2(upstream: SocketAddr, ws: bool, quota: usize, trunc: bool) -> std::io::Result<SocketAddr> {
     let l = TcpListener::bind("127.0.0.1:0")?;
     let addr = l.local_addr()?;
     std::thread::Builder::new().spawn(move || {
@@ -163,6 +181,20 @@ fn spawn_proxy(upstream: SocketAddr, ws: bool, quota: usize) -> std::io::Result<
             let mut hdr = Vec::new(); let mut b = [0u8; 1];
             while !hdr.ends_with(b"\r\n\r\n") { if up_r.read_exact(&mut b).is_err() { cut(&up_r, &cl_w); return; } hdr.push(b[0]); if hdr.len() > 65536 { cut(&up_r, &cl_w); return; } }
             if cl_w.write_all(&hdr).is_err() { cut(&up_r, &cl_w); return; }
+        }
+        if trunc && !ws {
+            // a chunk response is a successful frame whose query is the single flag byte; only the
+            // final one (flag = 1) is touched, and only if it carries at least two bytes
+            loop {
+                let frame = match read_raw_frame(&mut up_r) { Ok(f) => f, Err(_) => break };
+                let ql = u64::from_le_bytes(frame[24..32].try_into().unwrap()) as usize;
+                let bl = u64::from_le_bytes(frame[32..40].try_into().unwrap()) as usize;
+                let is_chunk = ql == 1 && frame.len() == 48 + 1 + bl && u32::from_le_bytes(frame[44..48].try_into().unwrap()) == 0;
+                let out = if is_chunk && frame[48] == 1 && bl >= 2 { DID_TRUNC.store(true, Ordering::SeqCst); truncate_body(&frame) } else { frame };
+                if cl_w.write_all(&out).is_err() { break; }
+            }
+            cut(&up_r, &cl_w);
+            return;
         }
         loop {
             let (frame, counts) = if ws {
@@ -231,8 +263,12 @@ fn exec_case(c: &Case, dir: &Path) -> Res {
     let reject = c.fault == "reject";
     let (tcp, ws) = match servers(c.chunk, c.comp) { Ok(x) => x, Err(e) => return Res::Crash(format!("setup:servers:{}", e.kind())) };
     let is_ws = c.tr == "ws";
+    let trunc = c.fault == "trunc";
+    if trunc && (is_ws || !c.comp) { return Res::Crash("badcase:trunc".into()); }
+    DID_TRUNC.store(false, Ordering::SeqCst);
     let addr = match cutq {
         Some(q) => match spawn_proxy(if is_ws { ws } else { tcp }, is_ws, q) { Ok(a) => a, Err(e) => return Res::Crash(format!("setup:proxy:{}", e.kind())) },
+        None if trunc => match spawn_proxy2(tcp, false, usize::MAX, true) { Ok(a) => a, Err(e) => return Res::Crash(format!("setup:proxy:{}", e.kind())) },
         None => if is_ws { ws } else { tcp },
     };
     let key = register(&c.stream, fail);
@@ -374,7 +410,8 @@ fn run_case_once(line: &str) -> String {
         format!("res={res} dst={} tmp={}", show(&val), stray as u8)
     } else {
         let after = std::fs::read(&dst).ok();
-        format!("res={res} dst={} tmp={}", show(&after), tmp.exists() as u8)
+        // trunc: whether the proxy really shortened the final chunk (if it did not, nothing was wrong)
+        format!("res={res} dst={} tmp={}{}", show(&after), tmp.exists() as u8, if c.fault == "trunc" { format!(" trunc={}", DID_TRUNC.load(Ordering::SeqCst) as u8) } else { String::new() })
     };
     let _ = std::fs::remove_dir_all(&dir);
     obs
@@ -440,6 +477,9 @@ fn gen_cases(seed: u64, thorough: bool) -> Vec<String> {
                 let trailer = if has_trailer(pu) { 3.min(len) } else { 0 };
                 let mut fs = faults.clone();
                 if has_verify(pu) { fs.push("reject".into()); }
+                // a compressed stream that ends cleanly at the protocol level but whose compressed
+                // frame is incomplete (the decompressing puller fails after the last chunk)
+                if pu == "bevefile" { fs.push("trunc".into()); }
                 for (fi, f) in fs.iter().enumerate() {
                     for (di, d) in dsts.iter().enumerate() {
                         let tmp = if (fi + di + si) % 4 == 0 { &stale } else { &None };
